@@ -17,7 +17,8 @@ Known-finding classes: see `Grol.Hazard` (HazardSession.lean).  For these classe
 implementation and the model DISAGREE by nature; such a case is reported as
 `agree := true, stmtImpl := false, klass := <class>` only under the rule stated there
 (non-strict form: the first difference comes at or after an input in which the model executed
-an in-place-capable operation on a large container).  Every other difference is a
+an in-place-capable operation on a large container THROUGH A NAME THAT MAY SHARE STORAGE with another
+live name, by the syntactic may-alias analysis of HazardSession.lean).  Every other difference is a
 disagreement AND a failed statement without class, i.e. a violation.
 -/
 namespace Grol.ValuesSuite
@@ -45,15 +46,18 @@ def runCase (inp obs : String) : CaseResult :=
       let model := "B:" ++ "/".intercalate r1 ++ " @@ D:" ++ "/".intercalate r0
       let stmtImpl := a == r1 && b == r1 && cc == r0 && d == r0
       let okHaz := fun (_ : String) => true
-      let hz1 := h1.map (·.2); let hz0 := h0.map (·.2)
+      -- only operations through a name that may share storage with another live name count (may-alias analysis)
+      let hz0 := sharedHazards c.asts r0 (h0.map (·.2))
+      let hz1 := if h1 == h0 then hz0 else sharedHazards c.asts r1 (h1.map (·.2))
       let (diff, explained, k) := combine
         [classify false okHaz hz1 b r1, classify false okHaz hz0 d r0, classify false okHaz hz1 a r1, classify false okHaz hz0 cc r0]
       -- threshold independence of the model (cache off)
       let lo := runSession { base with cacheOn := false, maxSmallArray := 0, maxSmallMap := 0 } c.asts
       let hi := runSession { base with cacheOn := false, maxSmallArray := 1000, maxSmallMap := 1000 } c.asts
       let stmtModel := (match lo with | .ok r => r == r0 | .error _ => false) && (match hi with | .ok r => r == r0 | .error _ => false)
-      let anyHaz := hz0.any (!·.isEmpty)
-      let tags := [sizeTag r0, if anyHaz then "in-place-capable-operation" else "no-in-place-capable-operation",
+      let anyHaz := (h0.map (·.2)).any (!·.isEmpty)
+      let anyShared := hz0.any (!·.isEmpty)
+      let tags := [sizeTag r0, if anyHaz then (if anyShared then "in-place-operation-on-possibly-shared-storage" else "in-place-operation-on-own-storage") else "no-in-place-capable-operation",
                    if diff then (if explained then "differs-in-class:" ++ k else "differs") else "same-as-model"]
       { model := model, agree := (b == r1 && d == r0) || (diff && explained), stmtModel := stmtModel,
         stmtImpl := stmtImpl, tags := tags, nontrivial := nontrivial, klass := if diff && explained then k else "" }
